@@ -209,7 +209,7 @@ fn step_body_at(mode: u8, completed: bool, op: u8, fixed: Option<(usize, usize)>
         assert!(con.cursor == con.pending_len, "C15: receive buffer re-posted while data is pending");
     }
     core::mem::forget(con);
-    kani::cover!(unread >= 1 && bytes[0] == 0x41);
+    kani::cover!((unread >= 1 || mode == 2 || !completed) && bytes[0] == 0x41);
     kani::cover!(bytes[1] == 0x0a);
 }
 
